@@ -199,11 +199,27 @@ fn run(process_base: Instant, hs: &[Hist], r: &Run) -> Out {
                 }
             }
             let reset = crate::scen::exact_stateless_reset(&p, CLIENT);
-            crate::scen::apply_op(&mut p, &Op::Close(CLIENT, 9));
-            if let Some(d) = reset {
-                let (src, dst) = (p.w.nodes[SERVER].addr, p.w.nodes[CLIENT].addr);
-                p.w.inject(src, dst, d, Duration::from_micros(us));
-                reset_sent = true;
+            if us == 0 {
+                // the reset is handled after close() but before the connection was polled for the
+                // close packet it owes (a driver that reads the socket first)
+                let now = p.w.now();
+                let ch = p.cch;
+                if let Some(s) = p.w.nodes[CLIENT].conns.get_mut(&ch) {
+                    s.conn.close(now, proto::VarInt::from_u32(9), bytes::Bytes::from_static(b"x"));
+                }
+                if let Some(d) = reset {
+                    let (src, dst) = (p.w.nodes[SERVER].addr, p.w.nodes[CLIENT].addr);
+                    p.w.deliver(crate::sim::Flight { at: p.w.t, seq: 0, idx: u64::MAX, src, dst, ecn: None, data: d, injected: true });
+                    reset_sent = true;
+                }
+                p.w.settle_conn(CLIENT, ch);
+            } else {
+                crate::scen::apply_op(&mut p, &Op::Close(CLIENT, 9));
+                if let Some(d) = reset {
+                    let (src, dst) = (p.w.nodes[SERVER].addr, p.w.nodes[CLIENT].addr);
+                    p.w.inject(src, dst, d, Duration::from_micros(us));
+                    reset_sent = true;
+                }
             }
         } else {
             drive(&mut p, &script, 40_000, Duration::from_secs(300));
@@ -371,7 +387,7 @@ pub fn main(args: &Args) -> ! {
     let thorough = args.tier == Tier::Thorough;
     let dl = deadline(if thorough { 1200 } else { 45 });
     let hs = histories(thorough);
-    rep.rule = "Differential runs over a list of input histories H (fault-free baselines of several configurations/workloads incl. Retry, CID rotation, key update, NAT rebinding, migration and unroutable datagrams that draw stateless resets, plus every single-deviation history over the fate alphabet in the first datagrams): (1) H twice -> identical full trace (instant, destination, bytes of every datagram; every event; every timer firing); (2) H with every supplied Instant shifted by 1 s / 1 day / 10 years -> identical trace relative to the base; (3) for EVERY step index j of H a spurious handle_timeout(now) or an extra poll round is inserted -> identical trace; (3a) H with the timeout handler called twice / three times at EVERY timer firing before transmits are polled -> identical full trace; (3c) every NEW_TOKEN token the server emits decodes (server's own key) to an issue time equal to the supplied clock's reading at emission; (4) a timer never fires more than 16 consecutive times at one instant; (3b) script-free histories driven by a busy-polling loop (extra transmit polls every 20/50/100/1000 us of virtual time, incl. rate-limited senders) -> same events and loss counters as the event-driven run; (5) after both sides are drained (by the close timer, or early by the peer's stateless reset arriving 1 / 40 ms after the close) every datagram of the run is fed again and ten timeouts are delivered -> no transmit, no event, no endpoint event. Non-trivial = a run with a shift or an inserted call; distinct = distinct (history, variant) pairs.".into();
+    rep.rule = "Differential runs over a list of input histories H (fault-free baselines of several configurations/workloads incl. Retry, CID rotation, key update, NAT rebinding, migration and unroutable datagrams that draw stateless resets, plus every single-deviation history over the fate alphabet in the first datagrams): (1) H twice -> identical full trace (instant, destination, bytes of every datagram; every event; every timer firing); (2) H with every supplied Instant shifted by 1 s / 1 day / 10 years -> identical trace relative to the base; (3) for EVERY step index j of H a spurious handle_timeout(now) or an extra poll round is inserted -> identical trace; (3a) H with the timeout handler called twice / three times at EVERY timer firing before transmits are polled -> identical full trace; (3c) every NEW_TOKEN token the server emits decodes (server's own key) to an issue time equal to the supplied clock's reading at emission; (4) a timer never fires more than 16 consecutive times at one instant; (3b) script-free histories driven by a busy-polling loop (extra transmit polls every 20/50/100/1000 us of virtual time, incl. rate-limited senders) -> same events and loss counters as the event-driven run; (5) after both sides are drained (by the close timer, or early by the peer's stateless reset arriving 1 / 40 ms after the close, or right after close() before the connection was polled again) every datagram of the run is fed again and ten timeouts are delivered -> no transmit, no event, no endpoint event. Non-trivial = a run with a shift or an inserted call; distinct = distinct (history, variant) pairs.".into();
     // baselines
     let (bres, _) = e3((0..hs.len()).collect::<Vec<_>>(), dl, |&i| run(pbase, &hs, &Run { h: i, shift: Duration::ZERO, extra: None, drained_part: false, busy_us: None, reset_after_us: None, timeout_calls: 1 }));
     let base: Vec<(u64, u64)> = bres.iter().map(|(_, o)| (o.trace, o.steps)).collect();
@@ -402,7 +418,7 @@ pub fn main(args: &Args) -> ! {
         if i < 34 || thorough {
             runs.push(Run { h: i, shift: Duration::ZERO, extra: None, drained_part: true, busy_us: None, reset_after_us: None, timeout_calls: 1 });
             // ... and drained early by the peer's stateless reset while the close timer is running
-            for us in [1_000u64, 40_000] {
+            for us in [0u64, 1_000, 40_000] {
                 runs.push(Run { h: i, shift: Duration::ZERO, extra: None, drained_part: true, busy_us: None, reset_after_us: Some(us), timeout_calls: 1 });
             }
         }
